@@ -200,6 +200,93 @@ static void stdalloc_script(vrf::Rng& rng, long round)
     vrf::res.rounds_done++;
 }
 
+// ---- composite elements: the element's constructor (user code running under the list's write mutex) inserts further
+// elements into the same list; legal with a re-entrant mutex type such as std::recursive_mutex (named in the class docs)
+struct Comp;
+using CompList = rcu_list<Comp, std::recursive_mutex, vrf::TrackAlloc<Comp>>;
+using CompG = rcu_guarded<CompList>;
+static std::atomic<long> g_comp_live{0};
+struct Comp {
+    uint32_t id;
+    Comp(uint32_t i, CompG* g, int children, unsigned how): id(i)
+    {
+        g_comp_live.fetch_add(1);
+        for (int c = 0; c < children; c++) {
+            CompG::write_handle h(g->lock_write());
+            uint32_t cid = i * 10 + static_cast<uint32_t>(c) + 1;
+            if ((how >> c) & 1u) h->emplace_front(cid, nullptr, 0, 0u);
+            else h->emplace_back(cid, nullptr, 0, 0u);
+        }
+    }
+    Comp(const Comp&) = delete;
+    ~Comp() { g_comp_live.fetch_sub(1); }
+};
+static void composite_script(vrf::Rng& rng, long round)
+{
+    vrf::AllocState as;
+    long base = g_comp_live.load();
+    std::set<uint32_t> expect;
+    std::string prog = "[";
+    {
+        std::unique_ptr<CompG> g(new CompG(vrf::TrackAlloc<Comp>(&as)));
+        std::unique_ptr<CompG::read_handle> parked;
+        int n = static_cast<int>(rng.range(2, 8));
+        uint32_t next = 1;
+        for (int i = 0; i < n; i++) {
+            unsigned roll = static_cast<unsigned>(rng.below(100));
+            if (roll < 65 || expect.empty()) {
+                uint32_t id = next++;
+                int children = static_cast<int>(rng.below(3));
+                unsigned how = static_cast<unsigned>(rng.below(4));
+                bool front = rng.chance(50);
+                CompG::write_handle h(g->lock_write());
+                if (front) h->emplace_front(id, g.get(), children, how);
+                else h->emplace_back(id, g.get(), children, how);
+                expect.insert(id);
+                for (int c = 0; c < children; c++) expect.insert(id * 10 + static_cast<uint32_t>(c) + 1);
+                prog += std::string("\"emplace_") + (front ? "front" : "back") + "(" + std::to_string(id) + ", children=" + std::to_string(children) + ")\",";
+            } else if (roll < 85) {
+                CompG::write_handle h(g->lock_write());
+                auto it = h->begin();
+                for (size_t k = rng.below(expect.size()); k > 0 && it != h->end(); k--) ++it;
+                if (it != h->end()) {
+                    expect.erase(it->id);
+                    h->erase(it);
+                    prog += "\"erase\",";
+                }
+            } else if (!parked) {
+                parked.reset(new CompG::read_handle(g->lock_read()));
+                (void)(*parked)->begin();
+                prog += "\"take handle\",";
+            } else {
+                parked.reset();
+                prog += "\"release handle\",";
+            }
+            vrf::res.cur_program = "{\"T\":\"composite (constructor re-enters the list), recursive_mutex\",\"ops\":" + prog + "\"...\"]}";
+            // every element inserted and not erased is reachable, once
+            std::multiset<uint32_t> got;
+            {
+                CompG::read_handle h(g->lock_read());
+                for (auto it = h->begin(); it != h->end(); ++it) got.insert(it->id);
+            }
+            if (got != std::multiset<uint32_t>(expect.begin(), expect.end()))
+                vrf::violation("oracle:elements_lost_or_duplicated", "{\"reachable\":" + vrf::jnums(got) + ",\"expected\":" + vrf::jnums(expect) + "}");
+        }
+        parked.reset();
+    }
+    if (as.live_blocks() != 0 || as.live_objects() != 0)
+        vrf::violation("oracle:alloc_leak_after_list_destroyed", "{\"phase\":\"composite\",\"live_blocks\":" + std::to_string(as.live_blocks()) + "}");
+    if (g_comp_live.load() != base)
+        vrf::violation("oracle:element_instances_leaked_or_double_destroyed", "{\"live\":" + std::to_string(g_comp_live.load() - base) + "}");
+    as.reset();
+    uint64_t sig = 11;
+    for (char c : prog) sig = vrf::mixhash(sig, static_cast<uint64_t>(c));
+    vrf::note(sig, true);
+    vrf::count("composite_scripts");
+    if (round % 2000 == 0) vrf::sample(vrf::res.cur_program);
+    vrf::res.rounds_done++;
+}
+
 // ---- exhaustive: k <= 4 handles, every release order, erases placed after each prefix of acquisitions
 template<class T>
 static void exhaustive_handles()
@@ -297,7 +384,11 @@ int main(int argc, char** argv)
     for (long r = 0; r < vrf::cfg.rounds; r++) {
         if (!vrf::want_round(r)) continue;
         int which = static_cast<int>(r % 3);
-        if (mode == "stdalloc") {
+        if (mode == "composite") {
+            vrf::res.cur_round = r;
+            vrf::Rng rng = vrf::round_rng(r);
+            composite_script(rng, r);
+        } else if (mode == "stdalloc") {
             vrf::res.cur_round = r;
             vrf::Rng rng = vrf::round_rng(r);
             stdalloc_script(rng, r);
